@@ -31,6 +31,8 @@ CLAIMED.update({
 "C17":other("Sigma-invariant of the write-cache counters by symbolic effect extraction over all acyclic paths; writer table; counters updated exactly on FSTree success; in-flight mark pairing in worker and scheduler abandon path; scheduler never returns except on close.")+("static analysis: symbolic path-effect extraction (Sigma-invariant) + must-follow pairing + field-writer table on go/ssa",),
 "C28":other("Shape of the access decision (not the SDK decision tables): eACL consulted only for extendable ACL and non-system roles; the bearer token's table used only where bearer rules are allowed, else the stored table; bearer attached to the request info only after verification against the request; role switches exhaustive; basic-ACL and sticky-bit check shape.")+(T_GUARD.replace("handlers enumerated from the generated service interfaces","anchors in pkg/services/object/acl resolved by type identity")+"; path-sensitive following of the cleared bearer field; switch exhaustiveness over acl.Role constants",),
 "C30":other("Must-pass-through on every nil-error return of the three token verifiers (cached common checks plus per-request lifetime/verb/container assertions), cache keys derived from the whole marshalled token, caches purged on new epoch.")+("static analysis: must-pass-through (success-return guard dataflow) over go/ssa CFGs including closures handed to the check cache; value-provenance check of cache keys",),
+"C01":other("Every metabase view (classified from the functions opening a read transaction) consults the shared status machinery with the available outcome before yielding; status-to-error mapping identical across views; expiry predicates strict and oriented alike; nested status = max(own, parent); inGarbage lookup shape. The status function's correctness on arbitrary histories is not decided.")+(T_GUARD.replace("handlers enumerated from the generated service interfaces","views enumerated from bbolt read-transaction call sites")+"; view classification table (exhaustiveness); sibling agreement of status switches",),
+"C06":other("Status clause and structural half of exactly-once: listing appends only after container-live and not-marked-for-removal tests; nothing else builds listing results; cursor advanced before any skip, next page strictly after the cursor key, object cursor reset only on container change. Exactly-once over key order is not decided.")+("static analysis: guard-dominance dataflow on go/ssa (closures of range-over-func loops included) + who-may-append table",),
 "C47":other("Container discard sites are dominated by payments-enabled, payment-check ok, unpaid>=0, no-wrap ordering and grace comparison; not-found classification dominates the other two paths; caller table of discarding entry points.")+("static analysis: guard-dominance dataflow with ordering facts for the unsigned subtraction + who-may-call table on go/ssa",),
 })
 NA={
